@@ -101,9 +101,10 @@ theorem decodeF_take (fuel m : Nat) (cs : List Char) (hf : ((encode cs).take m).
         simp only [decodeF]
         rw [if_neg (by simp)]
         by_cases hw : width c ≤ m + 1
-        · have hlen : ¬ ((List.take m (t ++ encode cs)).length + 1 < width c) := by
+        · have hlen : ¬ ((List.take 3 (List.take m (t ++ encode cs))).length + 1 < width c) := by
             simp only [List.length_take, List.length_append]
             have : t.length ≤ m := by omega
+            have : width c ≤ 4 := Char.utf8Size_le_four c
             omega
           rw [if_neg hlen]
           have hdrop : List.drop (width c - 1) (List.take m (t ++ encode cs))
@@ -120,7 +121,7 @@ theorem decodeF_take (fuel m : Nat) (cs : List Char) (hf : ((encode cs).take m).
           rw [ih fuel (m + 1 - width c) hfuel]
           simp only [fit, if_pos hw, List.take_succ_cons, List.drop_succ_cons, blen_cons]
           rw [Nat.sub_sub]
-        · have hlen : (List.take m (t ++ encode cs)).length + 1 < width c := by
+        · have hlen : (List.take 3 (List.take m (t ++ encode cs))).length + 1 < width c := by
             simp only [List.length_take]; omega
           rw [if_pos hlen]
           simp [fit, hw, encode_cons, ht]
